@@ -107,6 +107,9 @@ pub enum Op {
     Commit,
     Abort,
     DropTxn,
+    /// a panic unwinds through the live write transaction (its handles and the transaction are
+    /// dropped while panicking; the panic is caught by the application)
+    PanicDrop,
     // ---- catalog
     Open { slot: u8, name: String, spec: Spec },
     Close { slot: u8 },
